@@ -18,7 +18,7 @@ func init() {
 			"D2 a negative verdict for one range or entry never ends the evaluation: inside the loops over entries and ranges only the constant 'true' is returned, 'false' only before the loops or after both are exhausted; " +
 			"D3 the events are sorted (on a private copy) with a comparator that puts the sentinel \"0\" before every version and the binary search uses a comparator with the same sentinel rule and the same ecosystem comparison, on the sorted slice; the search is for the package's own version; " +
 			"D4 the decision after the search: an exact hit is affected iff the event is 'introduced' or 'last_affected'; between events iff there is a previous event and it is 'introduced'; D5 index discipline (events[idx] only when the search hit, events[idx-1] only when idx != 0; proved with the slices.BinarySearchFunc contract). " +
-			"Added in round 2: D6 the explicit-versions test exists, leads straight to a positive verdict and is evaluated under exactly the audited guards. NOT decided: agreement of sort + binary search with the specification's linear evaluation on all event lists (value-level; needs enumeration).",
+			"Added in round 2: D6 the explicit-versions test exists, leads straight to a positive verdict and is evaluated under exactly the audited guards. Added in round 3: D7 a range of a matching type is always sorted and searched (frozen skip table of the range loop). NOT decided: agreement of sort + binary search with the specification's linear evaluation on all event lists (value-level; needs enumeration).",
 		Run: runC18,
 		Controls: []Mutant{
 			{Name: "name-check-dropped", File: "guidedremediation/internal/vulns/vulns.go", Old: "		if affected.Package.Ecosystem != pkg.Ecosystem() ||\n			affected.Package.Name != pkg.Name {\n			continue\n		}", New: "		if affected.Package.Ecosystem != pkg.Ecosystem() {\n			continue\n		}", Rule: "D1-same-package", Site: "IsAffected"},
